@@ -8,6 +8,7 @@ Every check is `./check Cxx quick|thorough`.  A driver (harness/drivers/Cxx.py) 
 Exit codes: 0 ok, 1 violation (with a `VIOLATION property=.. replay=..` line), 2 machinery failure.
 """
 import os, sys, json, time, tempfile, shutil, subprocess, re, signal, atexit, contextlib, warnings, threading
+import numpy as np
 from concurrent.futures import ThreadPoolExecutor
 
 VERIF = os.path.dirname(os.path.dirname(os.path.abspath(__file__)))
@@ -49,6 +50,26 @@ def import_repo():
     import opticomlib  # noqa
     warnings.filterwarnings("ignore")
     return opticomlib
+
+
+def protect(*objs):
+    """Write-protect every numpy buffer reachable from the given arguments (ndarrays, signal containers, bit sequences, lists/tuples of
+    them): a library function that works in place on its input then raises inside the library, which the harness reports as a violation.
+    Returns the single object (or the tuple) for convenience."""
+    def walk(o):
+        if isinstance(o, np.ndarray):
+            o.flags.writeable = False
+        elif isinstance(o, (list, tuple)):
+            for v in o:
+                walk(v)
+        else:
+            for attr in ("signal", "noise", "data"):
+                a = getattr(o, attr, None)
+                if isinstance(a, np.ndarray):
+                    a.flags.writeable = False
+    for o in objs:
+        walk(o)
+    return objs[0] if len(objs) == 1 else objs
 
 
 @contextlib.contextmanager
